@@ -195,6 +195,19 @@ fn expand(line: &str) -> Option<String> {
     None
 }
 
+/// The key of a panic is its call site.  The VM's generic "Expected <kind> to be on the top of the stack"
+/// assertions are shared by unrelated defects, so for them the key also carries the construct of the input that
+/// can cause it (a reference to the last result, a unit defined by a non-quantity); anything else is `other`.
+fn panic_key(r: &Res, input: &str) -> String {
+    if r.detail.contains("to be on the top of the stack") {
+        let uses_last = input.split(|c: char| !(c.is_alphanumeric() || c == '_')).any(|w| w == "ans" || w == "_");
+        let tag = if uses_last { "last-result" } else if input.contains("unit ") && input.contains('=') { "unit-definition" } else { "other" };
+        format!("{}:{}", r.kind, tag)
+    } else {
+        r.kind.clone()
+    }
+}
+
 fn judge(pool: &mut Pool, out: &mut Out, line: &str, class: &str, session: bool) {
     let Some(input) = expand(line) else { return };
     let limit = Duration::from_secs(if input.len() > 20000 { 30 } else { 10 });
@@ -206,7 +219,7 @@ fn judge(pool: &mut Pool, out: &mut Out, line: &str, class: &str, session: bool)
         out.count("slower_than_2s");
     }
     if r.kind.starts_with("panic:") || r.kind.starts_with("render-panic:") || r.kind == "render-error" {
-        out.oracle_fail(&r.kind, line, &format!("{} on input `{}`: {}", r.kind, short(&input), short(&r.detail)));
+        out.oracle_fail(&panic_key(&r, &input), line, &format!("{} on input `{}`: {}", r.kind, short(&input), short(&r.detail)));
     } else if r.kind == "hang" {
         out.oracle_fail(&format!("hang:{}", line.split(' ').take(2).collect::<Vec<_>>().join(" ")), line, &format!("no result within the time limit on input `{}`", short(&input)));
     }
@@ -411,7 +424,7 @@ fn main() {
                     let r = pool.run(Job::Session(unesc(part)), Duration::from_secs(10));
                     if !failed && (r.kind.starts_with("panic:") || r.kind.starts_with("render-panic:") || r.kind == "hang") {
                         failed = true;
-                        out.oracle_fail(&r.kind, &l, &format!("{} at input {} of the history `{}`: {}", r.kind, k + 1, short(rest), short(&r.detail)));
+                        out.oracle_fail(&panic_key(&r, rest), &l, &format!("{} at input {} of the history `{}`: {}", r.kind, k + 1, short(rest), short(&r.detail)));
                     }
                 }
                 out.case(&l, true);
